@@ -1211,6 +1211,7 @@ def register_all(E):
     # formatting / logging
     M(r'^core::fmt::rt::Argument::new_display$',m_arg_new('display'))
     M(r'^core::fmt::rt::Argument::new_debug$',m_arg_new('debug'))
+    M(r'^core::fmt::rt::Argument::new_lower_hex$',m_arg_new('lower_hex')); M(r'^core::fmt::rt::Argument::new_upper_hex$',m_arg_new('upper_hex'))
     M(r'^(std::fmt::)?Arguments::new$',m_arguments_new)
     M(r'^(std::fmt::)?Arguments::from_str$',m_arguments_from_str)
     M(r'^std::fmt::format$',m_fmt_format)
@@ -2396,3 +2397,52 @@ def register_misc21(E):
 _old_register_all30=register_all
 def register_all(E):
     _old_register_all30(E); register_misc21(E)
+
+# ---- String::from_utf8_lossy: every maximal invalid prefix of a sequence becomes U+FFFD (std's Utf8Chunks), decided per
+# byte class with the same range forks as utf8_valid
+def m_from_utf8_lossy_std(e,run,a,f):
+    bl=list(byte_list(a[0])); n=len(bl); out=[]; i=0
+    def rng(x,lo,hi):
+        if isinstance(x,int): return lo<=x<=hi
+        ax=allowed(x)
+        if ax is not None:
+            if all(lo<=v<=hi for v in ax): return True
+            if not any(lo<=v<=hi for v in ax): return False
+        return run.branch_bool(Bool(z3.And(z3.UGE(x,lo),z3.ULE(x,hi))),'utf8lossy')
+    REP=[0xef,0xbf,0xbd]
+    while i<n:
+        x=bl[i]
+        if rng(x,0,0x7f): out.append(x); i+=1; continue
+        if rng(x,0xc2,0xdf):
+            if i+1<n and rng(bl[i+1],0x80,0xbf): out+=bl[i:i+2]; i+=2
+            else: out+=REP; i+=1
+            continue
+        three=None
+        if rng(x,0xe0,0xe0): three=(0xa0,0xbf)
+        elif rng(x,0xe1,0xec) or rng(x,0xee,0xef): three=(0x80,0xbf)
+        elif rng(x,0xed,0xed): three=(0x80,0x9f)
+        if three is not None:
+            if i+1<n and rng(bl[i+1],three[0],three[1]):
+                if i+2<n and rng(bl[i+2],0x80,0xbf): out+=bl[i:i+3]; i+=3
+                else: out+=REP; i+=2
+            else: out+=REP; i+=1
+            continue
+        four=None
+        if rng(x,0xf0,0xf0): four=(0x90,0xbf)
+        elif rng(x,0xf1,0xf3): four=(0x80,0xbf)
+        elif rng(x,0xf4,0xf4): four=(0x80,0x8f)
+        if four is not None:
+            if i+1<n and rng(bl[i+1],four[0],four[1]):
+                if i+2<n and rng(bl[i+2],0x80,0xbf):
+                    if i+3<n and rng(bl[i+3],0x80,0xbf): out+=bl[i:i+4]; i+=4
+                    else: out+=REP; i+=3
+                else: out+=REP; i+=2
+            else: out+=REP; i+=1
+            continue
+        out+=REP; i+=1
+    return Agg('Cow',[StringO(out)],1,'Owned')
+def register_misc22(E):
+    E.model(r'^(std::string::)?String::from_utf8_lossy$',m_from_utf8_lossy_std)
+_old_register_all31=register_all
+def register_all(E):
+    _old_register_all31(E); register_misc22(E)
